@@ -412,3 +412,62 @@ pub open spec fn attach_post(o: &ParseInfo, n: &ParseInfo, ctx: UserDataContext,
                      "        old(self).user_data_context is Some ==> attach_post(old(self), final(self), old(self).user_data_context->0, user_data, r is Ok),")},
     ],
 }
+
+# ------------------------------------------------------------------------------------------------
+# The three access paths to a cel and the cel accessors (C19, C06 accessors, C01 optional lookups)
+# ------------------------------------------------------------------------------------------------
+UNITS["routes"] = {
+    "prelude_sections": ["rgba_only"],
+    "items": [
+        {"kind": "struct", "file": "user_data", "name": "UserData", "keep": None, "rewrites": [("image::Rgba<u8>", "Rgba<u8>")]},
+        {"kind": "struct", "file": "cel", "name": "CelId", "keep": None, "attrs": "#[derive(Clone, Copy)]\n"},
+        {"kind": "struct", "file": "cel", "name": "CelCommon", "keep": None},
+        {"kind": "struct", "file": "cel", "name": "RawCel", "keep": ["data", "user_data"], "header": "struct RawCel "},
+        {"kind": "struct", "file": "cel", "name": "CelsData", "keep": ["data", "num_frames"], "header": "struct CelsData ", "rewrites": [("RawCel<P>", "RawCel")]},
+        {"kind": "struct", "file": "layer", "name": "LayerData", "keep": ["opacity"]},
+        {"kind": "struct", "file": "layer", "name": "LayersData", "keep": ["layers"]},
+        {"kind": "struct", "file": "file", "name": "AsepriteFile", "keep": ["num_frames", "layers", "framedata"], "rewrites": [("CelsData<Pixels>", "CelsData")]},
+        {"kind": "struct", "file": "cel", "name": "Cel", "keep": None},
+        {"kind": "struct", "file": "file", "name": "Frame", "keep": None},
+        {"kind": "struct", "file": "layer", "name": "Layer", "keep": None},
+        {"kind": "verbatim", "text": """
+impl CelsData {
+    pub open spec fn at(&self, f: int, l: int) -> Option<RawCel> {
+        if 0 <= f < self.data.len() && 0 <= l < self.data[f].len() { self.data[f][l] } else { None }
+    }
+}
+/// what loading establishes: one row per frame, frame and layer counts fit the 16-bit cel coordinates
+pub open spec fn file_wf(f: &AsepriteFile) -> bool {
+    f.framedata.data.len() == f.num_frames as int && f.layers.layers.len() <= 65535
+}
+"""},
+        {"kind": "fn", "file": "cel", "name": "cel", "key": "CelsData::cel", "impl_of": "CelsData", "impl_filter": r"impl<P>\s+CelsData<P>", "impl_header": "CelsData", "ret": "r",
+         "sig_rewrites": [("RawCel<P>", "RawCel")],
+         "requires": "        (cel_id.frame as int) < self.data.len(),",
+         "ensures": ("        (r is Some) == (self.at(cel_id.frame as int, cel_id.layer as int) is Some),\n"
+                     "        r is Some ==> *(r->0) == self.at(cel_id.frame as int, cel_id.layer as int)->0,")},
+        {"kind": "fn", "file": "file", "name": "num_frames", "impl_of": "AsepriteFile", "ret": "r", "ensures": "        r == self.num_frames as u32,"},
+        {"kind": "fn", "file": "file", "name": "num_layers", "impl_of": "AsepriteFile", "ret": "r",
+         "requires": "        self.layers.layers.len() <= 65535,", "ensures": "        r as int == self.layers.layers.len(),"},
+        {"kind": "fn", "file": "file", "name": "cel", "key": "AsepriteFile::cel", "impl_of": "AsepriteFile", "ret": "r",
+         "requires": "        file_wf(self), frame < self.num_frames as u32, (layer as int) < self.layers.layers.len(),",
+         "ensures": "        r.cel_id.frame as u32 == frame, r.cel_id.layer as u32 == layer, r.file == self,"},
+        {"kind": "fn", "file": "file", "name": "frame", "key": "AsepriteFile::frame", "impl_of": "AsepriteFile", "ret": "r",
+         "requires": "        index < self.num_frames as u32,",
+         "ensures": "        r.index == index, r.file == self,"},
+        {"kind": "fn", "file": "file", "name": "layer", "key": "AsepriteFile::layer", "impl_of": "AsepriteFile", "ret": "r",
+         "requires": "        file_wf(self), (id as int) < self.layers.layers.len(),",
+         "ensures": "        r.layer_id == id, r.file == self,"},
+        {"kind": "fn", "file": "file", "name": "layer", "key": "Frame::layer", "impl_of": "Frame", "impl_header": "<'a> Frame<'a>", "ret": "r",
+         "requires": "        file_wf(self.file), self.index < self.file.num_frames as u32, (layer_id as int) < self.file.layers.layers.len(),",
+         "ensures": "        r.cel_id.frame as u32 == self.index, r.cel_id.layer as u32 == layer_id, r.file == self.file,"},
+        {"kind": "fn", "file": "layer", "name": "frame", "key": "Layer::frame", "impl_of": "Layer", "impl_header": "<'a> Layer<'a>", "ret": "r",
+         "requires": "        file_wf(self.file), frame_id < self.file.num_frames as u32, (self.layer_id as int) < self.file.layers.layers.len(),",
+         "ensures": "        r.cel_id.frame as u32 == frame_id, r.cel_id.layer as u32 == self.layer_id, r.file == self.file,"},
+        {"kind": "fn", "file": "cel", "name": "frame", "key": "Cel::frame", "impl_of": "Cel", "impl_header": "<'a> Cel<'a>", "ret": "r", "ensures": "        r == self.cel_id.frame as u32,"},
+        {"kind": "fn", "file": "cel", "name": "layer", "key": "Cel::layer", "impl_of": "Cel", "impl_header": "<'a> Cel<'a>", "ret": "r", "ensures": "        r == self.cel_id.layer as u32,"},
+        {"kind": "fn", "file": "cel", "name": "is_empty", "impl_of": "Cel", "impl_header": "<'a> Cel<'a>", "ret": "r",
+         "requires": "        (self.cel_id.frame as int) < self.file.framedata.data.len(),",
+         "ensures": "        r == (self.file.framedata.at(self.cel_id.frame as int, self.cel_id.layer as int) is None),"},
+    ],
+}
